@@ -1647,7 +1647,9 @@ func (x *Explorer) PureCall(c *ast.CallExpr) bool { return x.P.PureCall(x.Fn.Inf
 var purePrefixes = []string{"strings.", "path.", "filepath.", "utf8.", "unicode.", "strconv.Quote", "builtin.len", "builtin.cap", "conv:",
 	"(reflect.Value).Is", "(reflect.Value).Kind", "(reflect.Value).Type", "(reflect.Value).Len", "(reflect.Value).Can", "(reflect.Value).NumField",
 	"(reflect.Type).", "(*reflect.rtype).", "(fs.FileInfo).", "(os.FileInfo).", "reflect.TypeOf", "reflect.ValueOf", "errors.New", "fmt.Sprintf", "fmt.Errorf", "fmt.Sprint",
-	"builtin.min", "builtin.max", "builtin.real", "builtin.imag", "builtin.complex"}
+	"builtin.min", "builtin.max", "builtin.real", "builtin.imag", "builtin.complex",
+	// readers of a reflect.Value and parsers: no effect on any state (they may panic, which ends the path)
+	"(reflect.Value).Int", "(reflect.Value).Uint", "(reflect.Value).Float", "(reflect.Value).String", "(reflect.Value).Bool", "strconv.Parse", "builtin.panic"}
 
 func (p *Prog) PureCall(info *types.Info, c *ast.CallExpr) bool {
 	name := CalleeName(info, c)
